@@ -48,7 +48,12 @@ def check_atoms(written, model):
         raise Violation("atoms:count", f"{len(got)} atoms written, {len(want)} expected")
     offsets = {}
     for idx, (w, g) in enumerate(zip(want, got), start=1):
-        for field, gf in (("name", "name"), ("type", "type"), ("resid", "resid"), ("resname", "resname"),
+        allowed_types = {w["type"]}
+        if idx in model.charge_override:
+            allowed_types = {rep["atype"] for _, rep in model.charge_override[idx] if "atype" in rep} or allowed_types
+        if g["type"] not in allowed_types:
+            raise Violation("atoms:type", f"atom {idx}: {g['type']!r} not in {sorted(allowed_types)}")
+        for field, gf in (("name", "name"), ("resid", "resid"), ("resname", "resname"),
                           ("mass", "mass")):
             if isinstance(w[field], float):
                 if g[gf] is None or abs(w[field] - g[gf]) > 1e-9:
